@@ -25,6 +25,10 @@ CHECKS = {
    text="For the type universes of spec/ARC4Gen.tla, programs that decode application argument 0 and log one component (tuple[i], named-tuple field, array[i] with constant and run-time index, length(), get()) are compiled and run by TLC on spec/AVM.tla with arg0 = the reference encoding computed in TLA+; expected behaviour = log the component's reference encoding, or fail for an array index outside the bounds (length, length+1, padding bit, 65535).",
    note="two recorded findings: array element access has no bounds check (bool padding bits; dynamic elements at index == length)",
    tech="TLA+ ARC-4 codec specification (TLC) as oracle; emitted decoder/accessor programs executed on the AVM spec"),
+ "C08": dict(cat="model_checking", ref="5 C08",
+   text="TLC enumerates all 1024 per-OnCompletion call configurations (spec/RouterGen.tla); routers built from them (single method: subset in quick / all in thorough; multi-method; bare-only; method + bare; with/without clear-state action) are compiled at versions 6..10 and TLC (spec/RouterCheck.tla) runs approval and clear-state programs on spec/AVM.tla for every call of the call domain as initial states (argument lists x OnCompletion 0..5 x create/call), comparing approval and the handler's logged marker with Router!Dispatch (spec/Router.tla).",
+   note="handlers take no arguments here (argument marshalling is C09); the approval program is only judged for OnCompletion != ClearState and the clear-state program only for ClearState, as the ledger does",
+   tech="TLA+ dispatch specification (TLC): emitted router programs executed on the AVM spec over the full call domain vs Dispatch()"),
  "C10": dict(cat="model_checking", ref="5 C10",
    text="A parameter grid (1..300 live variables x requested-id patterns incl. adjacent runs, 0/255 and duplicates x DynamicScratchVar views x main/subroutine placement x option settings) is enumerated completely; every variable receives a distinct marker and is read back. TLC runs each compiled text on spec/AVM.tla against the cell semantics of spec/PyTealSem.tla (read-back, index(), DynamicScratchVar) and compares all option settings incl. final user-numbered slots (spec/Refine.tla); TLC judges compile outcomes against the slot-limit model of spec/Accepts.tla (spec/Compile.tla).",
    note="frame-local ABI storage is covered by the ABI checks; the 256 limit is judged on unoptimised compilations only (the optimiser may legitimately remove a variable)",
